@@ -200,14 +200,18 @@ LeafFn(L) == IF WhalePos(L) > 0 THEN 2 * SfNum(L) ELSE SfNum(L)
 LeafFd(L) == SfDen(L)
 
 \* the k rows with the largest whale weight, any order among equals
-TopSets(S, k) == {T \in SUBSET S : Cardinality(T) = k /\ \A a \in T, b \in S \ T : It(a).ww >= It(b).ww}
+TopSetsAll(S, k) == {T \in SUBSET S : Cardinality(T) = k /\ \A a \in T, b \in S \ T : It(a).ww >= It(b).ww}
+\* "detc" = "det" with one representative order among rows of equal whale weight (wide leaves: the
+\* invariants do not depend on which of several equal rows is taken)
+IsDet == SelectMode \in {"det", "detc"}
+TopSets(S, k) == IF SelectMode = "detc" THEN {CHOOSE T \in TopSetsAll(S, k) : TRUE} ELSE TopSetsAll(S, k)
 
 \* what SelectF may return for the rest `R` with factor fn/fd
 \* (the rows are sorted by whale weight only when there are whales; otherwise they are in bucket order)
 Selections(R, fn, fd, sorted) ==
-  IF SelectMode = "det" THEN                                                                    \* int(len/sf), items[:pos]
+  IF IsDet THEN                                                                                 \* int(len/sf), items[:pos]
     LET k == Min(Cardinality(R), (Cardinality(R) * fd) \div fn)
-    IN IF sorted THEN TopSets(R, k) ELSE {T \in SUBSET R : Cardinality(T) = k}
+    IN IF sorted \/ SelectMode = "detc" THEN TopSets(R, k) ELSE {T \in SUBSET R : Cardinality(T) = k}
   ELSE IF fn <= fd THEN {R}                                                                     \* sf <= 1: return len(s)
   ELSE SUBSET R                                                                                 \* r.Float64()*sf < 1 per row
 
@@ -365,9 +369,9 @@ KeptWithinBudgetOf(smode, rmode, cls(_)) ==
      /\ \A L \in Leaves(plan) : cls(L))
   => /\ KeptSize(Free) <= input.budget
      /\ \A n \in Nodes(plan) : \A c \in n.kids : c.fixed => KeptSize(c.items) <= Max(c.b, 0)
-KeptWithinBudget == KeptWithinBudgetOf(SelectMode, RoundMode, BoundClass)
-KeptWithinBudgetAnySizes == KeptWithinBudgetOf(SelectMode, RoundMode, NoUnitClamp)   \* expected to FAIL (DESIGN 6.11)
-KeptWithinBudgetUnitRows == KeptWithinBudgetOf(SelectMode, RoundMode, UniformLeaf)   \* expected to FAIL (share 0, 1-unit rows)
+KeptWithinBudget == KeptWithinBudgetOf(IF IsDet THEN "det" ELSE SelectMode, RoundMode, BoundClass)
+KeptWithinBudgetAnySizes == KeptWithinBudgetOf(IF IsDet THEN "det" ELSE SelectMode, RoundMode, NoUnitClamp)   \* expected to FAIL (DESIGN 6.11)
+KeptWithinBudgetUnitRows == KeptWithinBudgetOf(IF IsDet THEN "det" ELSE SelectMode, RoundMode, UniformLeaf)   \* expected to FAIL (share 0, 1-unit rows)
 
 \* quota mode: budgets handed back are floor(share * size / sumSize) and sum to at most the total
 QuotaSum(S) == LET RECURSIVE Q(_)
